@@ -1587,7 +1587,10 @@ class AggregateFunction(Function):
 
     def get_filter_sql(self, **kwargs: Any) -> str:
         if self._include_filter:
-            return "WHERE {criterions}".format(criterions=Criterion.all(self._filters).get_sql(**kwargs))
+            # like a statement's WHERE: a scalar sub-query inside the criterion is one parenthesised unit
+            return "WHERE {criterions}".format(
+                criterions=Criterion.all(self._filters).get_sql(**{**kwargs, "subquery": True})
+            )
 
     def get_function_sql(self, **kwargs: Any):
         sql = super(AggregateFunction, self).get_function_sql(**kwargs)
@@ -1631,6 +1634,8 @@ class AnalyticFunction(AggregateFunction):
         self._orderbys = [(f.replace_table(current_table, new_table), orient) for f, orient in self._orderbys]
 
     def _orderby_field(self, field: Field, orient: Optional[Order], **kwargs: Any) -> str:
+        # a (scalar) sub-query as a window term is one parenthesised unit, as it is as a function argument
+        kwargs = {**kwargs, "subquery": True}
         if orient is None:
             return field.get_sql(**kwargs)
 
@@ -1644,7 +1649,10 @@ class AnalyticFunction(AggregateFunction):
         if self._partition:
             terms.append(
                 "PARTITION BY {args}".format(
-                    args=",".join(p.get_sql(**kwargs) if hasattr(p, "get_sql") else str(p) for p in self._partition)
+                    args=",".join(
+                        p.get_sql(**{**kwargs, "subquery": True}) if hasattr(p, "get_sql") else str(p)
+                        for p in self._partition
+                    )
                 )
             )
 
